@@ -976,6 +976,12 @@ def small_rewrites(t):
                 cid = ("#mapcontains", repr(strip_all(xs))[:60])
                 ce = ("citer", cid, 0, xs)
                 return ("comp", "gen", ("cmp", "in", ce, S_), ((ce, ()),), cid)
+            if n == "functools.partial" and t[2] and not any(k == "**" for k, _ in t[3]):
+                # functools.partial(f, *a, **k)  ==  lambda *args, **kwargs: f(*a, *args, **kwargs, **k)
+                lamid = ("#partial", repr(strip_all(t))[:80])
+                lp = lambda nme: ("lparam", lamid, nme)
+                return ("lam", lamid, (("args", None, "var"), ("kwargs", None, "kw")),
+                        ("call", t[2][0], tuple(t[2][1:]) + (("star", lp("args")),), (("**", lp("kwargs")),) + tuple(t[3])))
             if n == "operator.itemgetter" and len(t[2]) == 1 and not t[3] and is_const(strip(t[2][0])):
                 # operator.itemgetter(k) == lambda x: x[k]
                 lamid = ("#itemgetter", repr(strip(t[2][0])[2]))
